@@ -1,6 +1,7 @@
 package main
 
 import (
+	"runtime/pprof"
 	"encoding/json"
 	"flag"
 	"fmt"
@@ -67,7 +68,13 @@ func main() {
 	replayDec := flag.String("replay-decisions", "", "JSON file with a decision prefix to run once")
 	tags := flag.String("tags", "", "build tags")
 	fixAsg := flag.String("fix-assignment", "", "replay: JSON {assignment, ch_decisions}; run one concrete path")
+	cpuprof := flag.String("cpuprofile", "", "write cpu profile")
 	flag.Parse()
+	if *cpuprof != "" {
+		f, _ := os.Create(*cpuprof)
+		pprof.StartCPUProfile(f)
+		defer pprof.StopCPUProfile()
+	}
 
 	overlay := map[string][]byte{}
 	if *ovDir != "" {
